@@ -230,7 +230,9 @@ def contained(seq, container, id="r"):
     if container in ("annotated", "annotated-light"):
         return CircularRecord(Seq(seq), id=id, name=id, features=decorations(n, light=container.endswith("light")), letter_annotations={"idx": list(range(n)), "txt": "x" * n},
                               annotations={"topology": "circular", "molecule_type": "DNA", "keywords": ["k"], "comment": ["a comment kept as a list", "of two lines"],
-                                           "structured_comment": {"Assembly-Data": {"Method": "x"}}, "date": "01-JAN-2020"}, dbxrefs=["db:1"])
+                                           "structured_comment": {"Assembly-Data": {"Method": "x"}}, "date": "01-JAN-2020",
+                                           "source": "synthetic construct (a SOURCE line without an ORGANISM line)", "accessions": [id], "data_file_division": "SYN"},
+                              dbxrefs=["db:1"])
     if container == "seq":
         return crec(seq, id)
     raise ValueError(container)
@@ -599,7 +601,10 @@ def prime(classes=None):
     from moclo.regex import DNARegex
     classes = list(classes) if classes is not None else kit_classes()
     for c in classes:
-        c._regex = DNARegex(c.structure())
+        try:
+            c._regex = DNARegex(c.structure())
+        except (NotImplementedError, TypeError, RuntimeError):
+            pass            # a class without a structure of its own (abstract): nothing to compile
     return classes
 
 
